@@ -317,16 +317,25 @@ func DiffTreeContext(ctx context.Context, fromTree, toTree noder.Noder,
 			var err error
 			switch {
 			case from.Skip():
-				if from.Name() == to.Name() {
+				// A skipped noder only hides the noder at the very same path.
+				// The two iterators may stand at different names or depths: a
+				// "to" noder that sorts first still has to be reported.
+				switch cmp := from.Compare(to); {
+				case cmp == 0:
 					err = ii.nextBoth()
-				} else {
+				case cmp < 0:
 					err = ii.nextFrom()
+				default:
+					err = diffNodes(&ret, ii)
 				}
 			case to.Skip():
-				if from.Name() == to.Name() {
+				switch cmp := from.Compare(to); {
+				case cmp == 0:
 					err = ii.nextBoth()
-				} else {
+				case cmp > 0:
 					err = ii.nextTo()
+				default:
+					err = diffNodes(&ret, ii)
 				}
 			default:
 				err = diffNodes(&ret, ii)
